@@ -66,7 +66,20 @@ func init() {
 		if tier == "thorough" {
 			k.MaxDepth = 4
 		}
-		return gen.NewTG(t, k).Case()
+		ec := gen.NewTG(t, k).Case()
+		// a negative amount to send (small, or beyond the machine word) through a variable:
+		// the execution has to be refused, never to yield a negative posting
+		if gen.Chance(t, "c02.negsent", 6) {
+			for _, st := range ec.Script.Stmts {
+				if st.Kind == gen.StSend && !st.All && st.Sent.Kind == gen.EMon && st.Sent.L.Kind == gen.EAsset {
+					ec.Script.Vars = append(ec.Script.Vars, gen.VarDecl{Type: "monetary", Name: "negamt"})
+					ec.Vars["negamt"] = st.Sent.L.Text + " " + gen.Pick(t, "c02.negsent.v", []string{"-1", "-9223372036854775808", "-9223372036854775809", "-18446744073709551616", "-18446744073709551617"})
+					st.Sent = gen.Var("negamt")
+					break
+				}
+			}
+		}
+		return ec
 	}
 }
 
